@@ -13,6 +13,15 @@ CLAIMED = {
  "C13": ("deterministic simulation: 2-6 app tasks call Request/Notify/Write/Reply/Result/Subscribe/Bind/DatagramForMsgCounter/ProcessResponse on one connection under seeded schedules with statement-level preemption in send.go; history oracle over the outbound trace and return values; long sequential histories with >64 unanswered requests and >100 notifications",
          "Seeded exploration of interleavings of concurrent sender calls on one connection (statement granularity inside send.go) and of long sequential histories of requests over 3 destinations x 3 commands interleaved with responses referencing earlier, unknown and already answered counters, more than 64 unanswered distinct requests, and more than 100 notifications interleaved with lookups of old ones. Oracle: all counters on the connection distinct; counters increase between non-overlapping calls; a withheld request returns the counter of an identical request that is unanswered, a different request is never withheld, a processed response re-enables sending, an identical unanswered request is not sent again (when the bound cannot have forgotten it); remembered unanswered requests <= 64; each of the last 100 notifications is retrievable with exactly the datagram sent.",
          "Sampling; trusted: instrumenter (statement-level yields), synctest, the history oracle in harness/sc_c13.go.", "5/C13"),
+ "C14": ("deterministic simulation: app tasks send requests and register response/result callbacks while scripted peers answer with matching, non-matching, repeated (net.dup), reference-less, mis-addressed and rejected replies/results; registration tasks interleave with the reader task delivering the answer; invocation-log oracle",
+         "Seeded exploration of histories of callback registrations (1-3 distinct callbacks per counter, the same function twice, several counters, two local features, result callbacks) interleaved with replies and results from 1-2 peers whose references match, do not match, are repeated by the network, are missing, address another local feature or whose reply is rejected; registrations run concurrently with the arrivals. Oracle over the invocation log: a response callback fires exactly once iff a matching accepted message began being handled after its registration returned (<=1 when they overlap, 0 when all matching messages were handled before), never for another reference or feature, with the data and originating remote feature of a matching message; the same function registered twice is refused; result callbacks fire once per referencing result.",
+         "Sampling; trusted: instrumenter, synctest, the oracle in harness/sc_c14.go. Callback identity is by function value as the API defines it (closures of one literal are the same callback and are not generated as 'distinct').", "5/C14"),
+ "C15": ("deterministic simulation of the real process-global event bus: 2-4 tasks subscribe, unsubscribe and publish while handlers (un)subscribe, publish and call the stack from inside HandleEvent; a real DeviceLocal plus a harness handler sit at the core level; delivery-log oracle + modelled-lock deadlock detection",
+         "Seeded exploration of histories of Subscribe/Unsubscribe/Publish from 2-4 tasks with 2-4 application handlers that, while handling an event, subscribe others, unsubscribe themselves, publish nested events or call stack API; publications include device-added events the real DeviceLocal (core level) reacts to with datagrams. Oracle: each published event is delivered at most once per handler, exactly once to handlers subscribed when Publish was invoked (no unsubscription invoked before it returned), never to handlers whose unsubscription had returned; the core level handler has handled the event exactly once, inside Publish, before any application handler; wait-for cycles on the bus's locks are deadlock violations.",
+         "Sampling; trusted: instrumenter, synctest, overlay accessor VerifSubscribeCore (calls the unexported subscribe at core level), oracle in harness/sc_c15.go.", "5/C15"),
+ "C16": ("deterministic simulation on the fake clock with statement-level preemption in heartbeat_manager.go: 1-3 tasks interleave AddFunctionType(heartbeat)/StartHeartbeat/StopHeartbeat/IsHeartbeatRunning/RemoveEntity with pauses of fractions and multiples of the timeout; a subscribed scripted peer records every refresh; history oracle + live heartbeat goroutine count from the task table",
+         "Seeded exploration of histories and interleavings (statement granularity inside heartbeat_manager.go) of heartbeat operations from 1-3 tasks for timeouts 100 ms-60 s (including 2 s, 2.1 s and 4 s where the period is shortened), on the fake clock (ticks are never skipped while the heartbeat goroutine is busy, rule T2). Oracle: counters strictly increase, timestamps are current, while the history says certainly running consecutive refreshes are at most the announced timeout apart and each is notified to the subscriber, never more than one heartbeat goroutine alive once all operations returned (0 after a final stop/removal, 1 after a final start), at most one refresh after the final stop returned however far the clock advances, IsHeartbeatRunning agrees with the history where determinate, and no task panics (double close, start before the function exists).",
+         "Sampling; trusted: instrumenter (statement-level yields), synctest fake clock, oracle in harness/sc_c16.go. Ticks are not dropped (rule T2), so a heartbeat goroutine that is starved for longer than a period is not explored.", "5/C16"),
  "C03": ("deterministic simulation: scripted peers interleave bind/unbind/subscribe/write with conn.drop, conn.restart, peer.entity_remove and net.dup faults; reference binding registry decides per write whether it is authorised; data snapshots, outbound traces and events are the observables",
          "Seeded exploration of interleaved histories of bind, unbind, subscribe, write (from the bound feature, from another feature of the same peer, to read-only functions), disconnect/reconnect and entity removal by 2-3 peers with overlapping numbering against 2-6 local server features; for each delivered write the oracle requires, when unauthorised, unchanged data, no notification, no data-change event and exactly one error result, and when authorised, the data applied, one notify per current subscriber, one event and a success result iff ack.",
          "Sampling; trusted: instrumenter, synctest, registry model (A.5). Writes whose handling overlaps a registry change on their key, or other updates of the same function, are only checked for <=1 result.", "5/C03"),
